@@ -55,8 +55,17 @@ Past(o) ==
   /\ hist' = Append(hist, [op |-> "resolve_past", obj |-> o, inp |-> objs[o].inp, ctor |-> objs[o].ctor,
                            from |-> 0, to |-> 0])
 
+BadKinds == {"graph_without_fragname", "dicts_with_levels"}
+(* constructor misuse is rejected and creates no object:                                              *)
+(*   from_graph with a node that has no fragname; from_fragment_dicts with a string of several levels *)
+NewBad(i, kind) ==
+  /\ Len(hist) = 1 /\ i = hist[1].inp     \* once, right after the first object (keeps the universe small)
+  /\ UNCHANGED objs
+  /\ hist' = Append(hist, [op |-> "new_bad", obj |-> 0, inp |-> i, ctor |-> kind, from |-> 0, to |-> 0])
+
 Next == /\ Len(hist) < MaxEvents
         /\ \/ \E i \in Inputs, c \in Ctors : New(i, c)
+           \/ \E i \in Inputs, kind \in BadKinds : NewBad(i, kind)
            \/ \E o \in DOMAIN objs : Resolve(o) \/ Iterate(o) \/ All(o) \/ Past(o)
 Spec == Init /\ [][Next]_vars
 
